@@ -316,3 +316,15 @@ def r11(c):
 def r12(c):
     from rules import c05
     c05.r5(c)
+
+
+@rule('C02', 'R02.13', 'the values a write handler is given are the values that were sent: bit k of the request is bit (k % 8) of data byte (k / 8), register k is data bytes 2k, 2k + 1, the address is start + k (C04/R04.8)')
+def r13(c):
+    from rules import c04
+    c04.r8(c)
+
+
+@rule('C02', 'R02.14', 'no handler call for bytes of another connection or another frame: framing state is reset for every session and never in the middle of one (C05/R05.7)')
+def r14(c):
+    from rules import c05
+    c05.r7(c)
